@@ -82,6 +82,7 @@ def einsum(subscripts, *operands, order=None, swap=None) -> 'Tensor':
         for v in sin.replace(',', ''):
             if sin.count(v) == 1:
                 sout += v
+        sout = ''.join(sorted(sout))  # implicit mode of np.einsum: output indices in alphabetical order
     elif len(sout) != len(set(sout)):
         raise YastnError('Repeated index after ->')
 
